@@ -7,6 +7,7 @@ import sys
 ENGINES = {
     "C01": ("e3", "run"), "C02": ("e3", "run"), "C03": ("e3", "run"),
     "C19": ("props.c19", "run"),
+    "C06": ("props.c06", "run"),
 }
 
 
